@@ -59,6 +59,9 @@ func solverArgs(name string, file string, ms int, seed int) []string {
 	return base
 }
 
+// solverPool bounds the number of solver processes running at once (all units share it).
+var solverPool = make(chan struct{}, 16)
+
 var skCounter int
 var skMu sync.Mutex
 
@@ -93,8 +96,9 @@ func obligationQuery(o *Obligation) (string, string) {
 		if len(terms) > 12 {
 			terms = terms[:12]
 		}
+		terms = append(terms, o.Gen.S.instTerms...)
 		if len(terms) > 0 {
-			budget := 240
+			budget := 240 + 40*len(o.Gen.S.instTerms)
 			for _, a := range o.Gen.S.asserts {
 				if !strings.Contains(a, "(forall ((|q!") && !strings.Contains(a, "(forall ((j Int))") {
 					continue
@@ -174,10 +178,65 @@ func SolveGen(g *Gen, opts SolveOpts, stats *SolverStats) {
 			rest = append(rest, o)
 		}
 	}
+	// pass 1b: what the incremental run left open gets one fresh (non-incremental) z3-new process each: the two modes
+	// of z3 preprocess quantifiers differently and each decides queries the other does not
+	if len(rest) > 0 {
+		var wg sync.WaitGroup
+		var mu sync.Mutex
+		var still []*Obligation
+		for i, o := range rest {
+			wg.Add(1)
+			go func(i int, o *Obligation) {
+				defer wg.Done()
+				d, qa := obligationQuery(o)
+				f := filepath.Join(dir, fmt.Sprintf("q%04d.smt2", i))
+				os.WriteFile(f, []byte(prefix+fmt.Sprintf("%s\n(assert %s)\n(check-sat)\n", d, qa)), 0o644)
+				solverPool <- struct{}{}
+				t0 := time.Now()
+				out, _ := runCmd(time.Duration(opts.QuickMs+5000)*time.Millisecond, append(append([]string{}, solverCmd["z3-5.1.0"]...), fmt.Sprintf("-t:%d", opts.QuickMs), fmt.Sprintf("smt.random_seed=%d", opts.Seed), f))
+				el := time.Since(t0)
+				<-solverPool
+				os.Remove(f)
+				ans := "unknown"
+				for _, ln := range strings.Split(out, "\n") {
+					ln = strings.TrimSpace(ln)
+					if ln == "sat" || ln == "unsat" || ln == "unknown" || ln == "timeout" {
+						ans = ln
+						break
+					}
+				}
+				if ans == "unsat" {
+					o.Status, o.Solver, o.TimeS = "proved", "z3-5.1.0", el.Seconds()
+					stats.add("z3-5.1.0", el)
+					return
+				}
+				stats.add("", el)
+				mu.Lock()
+				still = append(still, o)
+				mu.Unlock()
+			}(i, o)
+		}
+		wg.Wait()
+		sort.Slice(still, func(a, b int) bool { return still[a].Name < still[b].Name })
+		rest = still
+	}
 	// pass 2: race the remaining ones individually
 	var wg sync.WaitGroup
 	sem := make(chan struct{}, 4)
 	for i, o := range rest {
+		if o.Kind == "auto-init" || o.Kind == "auto-pres" {
+			// an inferred candidate gets one short race (no retry); if that fails it is dropped (Houdini)
+			wg.Add(1)
+			sem <- struct{}{}
+			go func(i int, o *Obligation) {
+				defer wg.Done()
+				defer func() { <-sem }()
+				o2 := opts
+				o2.RaceMs = opts.QuickMs * 2
+				raceOnce(o, prefix, filepath.Join(dir, fmt.Sprintf("ob%03d.smt2", i)), o2, stats)
+			}(i, o)
+			continue
+		}
 		wg.Add(1)
 		sem <- struct{}{}
 		go func(i int, o *Obligation) {
